@@ -242,3 +242,47 @@ def run_family_clauses(ctx, rep, rule, method, clauses, families=('Clayton', 'Fr
             if run_clause(ctx, rep, rule, fam, method, c, memo) != 'n/a':
                 n += 1
     return n
+
+
+def monotone_refutation(ctx, rep, rule, method, what, families=('Clayton', 'Frank', 'Gumbel'), domain=None):
+    """method(x1, v) <= method(x2, v) for x1 < x2 (first argument), exact theta, narrow cells: refuted when the interval at the
+    smaller argument lies entirely above the interval at the larger one."""
+    k = 12 if ctx.thorough else 6
+    cuts = [0.03 + 0.94 * i / k for i in range(k + 1)]
+    xs = [IV(c, c + 1e-4) for c in cuts]
+    vs = [IV(c, c + 1e-4) for c in cuts[::2]]
+    dom = domain or (OPEN, OPEN)
+    cache = ctx.memo.setdefault('ivcases', {}).setdefault('dom', {})
+    n = 0
+    for fam in families:
+        cls = ctx.prog.cls(Q[fam])
+        fn = cls.lookup(method)
+        if fn is None or (method == 'percent_point' and fn.cls is not cls):
+            continue
+        n += 1
+        total = und = 0
+        refuted = None
+        for th in EXACT_THETAS[fam]:
+            for v in vs:
+                prev = None
+                for x in xs:
+                    total += 1
+                    alts = evaluate(ctx, cls, method, th, x, v, alts=True, domain=dom, domcache=cache)
+                    good = [r for r, d_, _ in alts if d_ and isinstance(r, IV) and not r.nan]
+                    cur = good[0] if len(alts) == len(good) == 1 else None
+                    if cur is None:
+                        und += 1
+                        prev = None
+                        continue
+                    if prev is not None and prev[1].lo > cur.hi + 1e-9:
+                        refuted = refuted or (th, v, prev, (x, cur))
+                    prev = (x, cur)
+        cons = f'{fam}.{method}: {what}'
+        if refuted:
+            th, v, (x1, r1), (x2, r2) = refuted
+            rep.bad(rule, fn, fn.node.name, f'{fam}.{method}, theta = {th.lo:g}, second argument in {v}: the value for the first argument in {x1} lies in {r1}, above the value '
+                    f'for {x2} ({r2}): not {what}', construct=cons)
+        else:
+            rep.undecided(rule, fn, fn.node.name, f'{what}: not refuted on any of {total} consecutive cells'
+                          f'{" (" + str(und) + " not evaluated)" if und else ""} (a relation between two evaluations; refutation only)', construct=cons)
+    return n
